@@ -235,6 +235,13 @@ func purityPool(samples map[string]*Msg, thorough bool) ([]string, []*Msg) {
 		bad.setElem("SenderDepositoryInstitution", "SenderShortName", "Bad*Name\n")
 		names = append(names, n+"#invalid")
 		pool = append(pool, bad)
+		// options present but waiving nothing (what OutgoingFile() / SetValidation(&ValidateOpts{}) / "validateOptions":{} leave)
+		if len(pool) < 40 {
+			eo := samples[n].Clone()
+			eo.Opts = &wire.ValidateOpts{}
+			names = append(names, n+"#empty-options")
+			pool = append(pool, eo)
+		}
 		// no options of its own and a waivable tag missing: the verdict rests on the defaults alone
 		for _, wt := range []string{"SenderSupplied", "InputMessageAccountabilityData"} {
 			if _, has := samples[n].Tags[wt]; has && len(pool) < 40 {
@@ -769,6 +776,36 @@ func init() {
 		samples := loadSamples()
 		names, pool := purityPool(samples, thorough)
 		texts := sampleTexts()
+		// independent messages that differ in a coded element, validated and written side by side before anything
+		// else has run in this process (tables or memos filled on first use), then once more alone
+		for _, sn := range sortedSampleNames(samples) {
+			if _, has := samples[sn].Tags["InstructedAmount"]; !has {
+				continue
+			}
+			side := make([]string, len(currencyCodes))
+			var wg sync.WaitGroup
+			for k, code := range currencyCodes {
+				wg.Add(1)
+				go func(k int, code string) {
+					defer wg.Done()
+					m := samples[sn].Clone()
+					m.setElem("InstructedAmount", "CurrencyCode", code)
+					side[k] = pureOutputs(m.ToWire())
+				}(k, code)
+			}
+			wg.Wait()
+			res := "same"
+			for k, code := range currencyCodes {
+				m := samples[sn].Clone()
+				m.setElem("InstructedAmount", "CurrencyCode", code)
+				if pureOutputs(m.ToWire()) != side[k] {
+					res = "differ:a message validated and written next to other messages got a different result than alone (currency " + code + ")"
+					break
+				}
+			}
+			o.Case("prop:shared-same-results", res, sn, "side-by-side-coded-elements")
+			break
+		}
 		for i, m := range pool {
 			fwm := m.ToWire()
 			solo := pureOutputs(fwm)
